@@ -81,7 +81,7 @@ type generator struct {
 var hostileStrings = []string{
 	"", " ", ":", "#", "@", "*", "|", "::", "##", "@@", "a:b:c", "a#b#c", "a@b", "user:", ":id", "user:*", "user:**", "*:*", "*",
 	"group:a#", "group:a#member#member", "group:a#member@x", "#member", "doc ument:1", "document:1 ", " document:1", "\t", "\n",
-	"document:1\n", "document:\x00", "\x00", "\x7f", "user:\x7f", "\u0085", " ", "‮", "﻿", " ", "é", "日本:語", "😀:😀",
+	"document:1\n", "document:\x00", "\x00", "\x7f", "user:\x7f", "\u0085", "\u2028", "\u202e", "\ufeff", "\u00a0", "é", "日本:語", "😀:😀",
 	"user:é#é", "document:1#viewer@user:anne", "document:1|viewer", "%00", "%s%s%n", "../../etc/passwd", "${jndi:x}", "' OR 1=1 --",
 	"{{.}}", "<script>", "\\", "\"", "user:\"", "null", "true", "-1", "0", "1e400", "NaN",
 	"01ARZ3NDEKTSV4RRFFQ69G5FAV", "01arz3ndektsv4rrffq69g5fav", "01ARZ3NDEKTSV4RRFFQ69G5FA", "01ARZ3NDEKTSV4RRFFQ69G5FAVX", "ZZZZZZZZZZZZZZZZZZZZZZZZZZ",
